@@ -603,6 +603,42 @@ def rule_joinfirst(ctx):
     agg(ctx, "joinfirst", pa, descs[0].node if descs else pa.node, "sketch.append((tag, args, shm name)) in the worker start loop",
         "each worker (and so the callback) receives its sketches in the documented alphabetical order cms, hh, hll",
         res or [(False, "no (tag, args, block name) descriptors are built for the workers", [])])
+    # every sketch created for a worker is handed to it: on each way through one iteration of the start loop the descriptors built are
+    # exactly those of the sketches created on that way, and a descriptor names the block of the array of its own tag
+    fac_tag = {"CountMin": "cms", "HeavyHitters": "hh", "HyperLogLog": "hll"}
+    roles0 = sketch_roles(pa)
+    res = []
+    for le in [x for x in w.events if x.kind == "loopend" and any(d.loops[0] is x.loop for d in descs)]:
+        onp = [x for x in on_path(w.events, le) if x.loops and x.loops[0] is le.loop]
+        made = sorted(fac_tag[c.name] for c in onp if c.kind == "call" and c.name in fac_tag)
+        seq = sorted(tag_of(d) for d in onp if d in descs)
+        okk = made == seq
+        res.append((okk, "descriptors %s for created sketches %s" % (seq, made) if okk else
+                    "a worker for which the sketches %s are created receives the descriptors %s: a requested sketch is never filled (or filled twice)" % (made, seq),
+                    fact_strs(le)))
+    agg(ctx, "joinfirst", pa, descs[0].node if descs else pa.node, "one descriptor per sketch created for the worker",
+        "every sketch created for a worker is handed to that worker exactly once", res or [(False, "no descriptors", [])])
+    for d in {id(d.node): d for d in descs}.values():
+        t = tag_of(d)
+        arr = roles0[t]["array"]
+        a0 = d.node.args[0] if d.node.args else None
+        el = a0.elts[1:] if isinstance(a0, ast.Tuple) and len(a0.elts) == 3 else ([a0] if a0 is not None else [])
+        names = [{n.id for n in ast.walk(x) if isinstance(n, ast.Name)} for x in el]
+        # a local that is itself appended to an array stands for that array's element (`x = F(...); arr.append(x); (tag, x.args, x.shm.name)`)
+        alias = {}
+        for an, _av, cn in _appends(pa):
+            if isinstance(cn.args[0], ast.Name):
+                alias.setdefault(cn.args[0].id, set()).add(an)
+        def arrays_of(ns):
+            out = set()
+            for nm in ns:
+                if nm in {roles0[o]["array"] for o in roles0}:
+                    out.add(nm)
+                out |= {a for a in alias.get(nm, ()) if a in {roles0[o]["array"] for o in roles0}}
+            return out
+        okk = bool(arr) and bool(names) and all(arrays_of(ns) == {arr} for ns in names)
+        ctx.ob("joinfirst", pa, d.node, src(pa, d.node, 70), "the descriptor tagged '%s' carries the arguments and the block name of %s[i]" % (t, arr), okk,
+               "" if okk else "the descriptor tagged '%s' does not name %s only: the worker attaches another sketch's memory under this tag" % (t, arr))
     # each X_array is merged into X_final and X_array holds the sketches created for the workers
     roles = sketch_roles(pa)
     for tag, fac in (("cms", "CountMin"), ("hh", "HeavyHitters"), ("hll", "HyperLogLog")):
@@ -1453,9 +1489,49 @@ def rule_dead(ctx):
                 kw = {k.arg: k.value for k in n.value.keywords}
                 if isinstance(kw.get("target"), ast.Name) and kw["target"].id == fq.name and isinstance(n.targets[0], ast.Name):
                     fillvar = n.targets[0].id
-        kf = any(isinstance(c, ast.Call) and isinstance(c.func, ast.Attribute) and c.func.attr in ("kill", "terminate") and dotted(c.func.value) == fillvar
-                 for st in body for c in ast.walk(st))
-        ctx.ob("dead-cleanup", pa, node, "%s.kill()" % fillvar, "the filler process is stopped (it would block on a full queue with no consumers, and the later join would hang)", kf)
+        def _guards(stmts, target, acc=()):
+            """Tests (with polarity) of the ifs enclosing `target` inside stmts, or None when it is not there."""
+            for st in stmts:
+                if any(x is target for x in ast.walk(st)):
+                    if isinstance(st, ast.If):
+                        if any(x is target for b in st.body for x in ast.walk(b)):
+                            return _guards(st.body, target, acc + ((st.test, True),))
+                        if any(x is target for b in st.orelse for x in ast.walk(b)):
+                            return _guards(st.orelse, target, acc + ((st.test, False),))
+                        return None          # inside the test itself
+                    for fld in ("body", "orelse", "finalbody"):
+                        sub = getattr(st, fld, None)
+                        if isinstance(sub, list) and any(x is target for b in sub for x in ast.walk(b)):
+                            return _guards(sub, target, acc)
+                    for h in getattr(st, "handlers", []) or []:
+                        if any(x is target for b in h.body for x in ast.walk(b)):
+                            return None      # only after an exception
+                    return acc
+            return None
+
+        def _still_running(test, pol):
+            # `<filler>.exitcode is None` / `<filler>.is_alive()`: true exactly when there is something to stop
+            t = test
+            if isinstance(t, ast.UnaryOp) and isinstance(t.op, ast.Not):
+                t, pol = t.operand, not pol
+            if isinstance(t, ast.Compare) and len(t.ops) == 1 and isinstance(t.comparators[0], ast.Constant) and t.comparators[0].value is None \
+                    and dotted(t.left) == "%s.exitcode" % fillvar:
+                return (isinstance(t.ops[0], (ast.Is, ast.Eq)) and pol) or (isinstance(t.ops[0], (ast.IsNot, ast.NotEq)) and not pol)
+            if isinstance(t, ast.Call) and dotted(t.func) == "%s.is_alive" % fillvar:
+                return pol
+            return False
+        kcalls = [c for st in body for c in ast.walk(st) if isinstance(c, ast.Call) and isinstance(c.func, ast.Attribute)
+                  and c.func.attr in ("kill", "terminate") and dotted(c.func.value) == fillvar]
+        kf = False
+        why = "no %s.kill()/terminate() in the failure branch" % fillvar
+        for c in kcalls:
+            g = _guards(body, c)
+            if g is not None and all(_still_running(t, pol) for t, pol in g):
+                kf = True
+            elif g is not None:
+                why = "%s.kill() is reached only under `%s`, which does not cover every still-running filler" % (fillvar, " and ".join(("" if pol else "not ") + unparse(t, 40) for t, pol in g))
+        ctx.ob("dead-cleanup", pa, node, "%s.kill()" % fillvar, "the filler process is stopped (it would block on a full queue with no consumers, and the later join would hang)", kf,
+               "" if kf else why)
         # the cleanup precedes the unconditional joins
         joins = [i for i, s in enumerate(pa.body()) if any(isinstance(c, ast.Call) and isinstance(c.func, ast.Attribute) and c.func.attr == "join" for c in ast.walk(s))
                  and not any(s is mon for _ in [0])]
